@@ -247,6 +247,67 @@ pub fn sweep_trace(main: &ColMatrix<Felt>, mon: &Monitor, n_exec: usize, len: us
     }
 }
 
+/// Composite forgeries: a whole row is rewritten consistently under a *wrong interpretation* of the
+/// transition, so that every constraint which only looks at the rewritten cells is satisfied and
+/// the one constraint tying the interpretation to the facts has to reject it. Each forged pair is
+/// invalid by construction (no value coincidence can make it a valid transition):
+///  * memory: a pair whose address (or context) changes, forged as a re-access of the same word
+///    (d_inv' = 0, delta = clock difference, a read copies the previous row's word and sets s1');
+///  * stack: a left shift at depth > 16 forged as a left shift at depth 16 (overflow flag helper
+///    h0 = 0, depth kept, zero shifted in at position 15).
+/// Returns (name, row, [(column, in next row?, value)]).
+pub fn composite_forgeries(main: &ColMatrix<Felt>, n_exec: usize, len: usize, per_kind: usize, seed: u64) -> Vec<(String, usize, Vec<(usize, bool, u64)>)> {
+    use miden_air::trace::chiplets::{MEMORY_ADDR_COL_IDX, MEMORY_CLK_COL_IDX, MEMORY_CTX_COL_IDX, MEMORY_D0_COL_IDX, MEMORY_D1_COL_IDX, MEMORY_D_INV_COL_IDX, MEMORY_TRACE_OFFSET, MEMORY_V_COL_RANGE};
+    let mut out = vec![];
+    let mut seen: BTreeMap<String, usize> = BTreeMap::new();
+    let mut rows: Vec<usize> = (0..len - 2).collect();
+    Rng::new(seed ^ 0xC0F0).shuffle(&mut rows);
+    for r in rows {
+        if chip_kind(main, r).starts_with("memory") && chip_kind(main, r + 1).starts_with("memory") {
+            let same_ctx = tc::g(main, MEMORY_CTX_COL_IDX, r) == tc::g(main, MEMORY_CTX_COL_IDX, r + 1);
+            let same_addr = tc::g(main, MEMORY_ADDR_COL_IDX, r) == tc::g(main, MEMORY_ADDR_COL_IDX, r + 1);
+            if !same_ctx || !same_addr {
+                let is_read = tc::g(main, MEMORY_TRACE_OFFSET, r + 1) == 1;
+                let name = format!("memory/{}-as-reaccess/{}", if !same_ctx { "ctx-change" } else { "addr-change" }, if is_read { "read" } else { "write" });
+                let c = seen.entry(name.clone()).or_insert(0);
+                if *c < per_kind {
+                    *c += 1;
+                    let dclk = (tc::g(main, MEMORY_CLK_COL_IDX, r + 1) as u128 + 2 * P as u128 - tc::g(main, MEMORY_CLK_COL_IDX, r) as u128 - 1) % P as u128;
+                    let mut cells = vec![(MEMORY_D_INV_COL_IDX, true, 0u64), (MEMORY_D0_COL_IDX, true, dclk as u64), (MEMORY_D1_COL_IDX, true, 0)];
+                    if is_read {
+                        cells.push((MEMORY_TRACE_OFFSET + 1, true, 1));
+                        for col in MEMORY_V_COL_RANGE {
+                            cells.push((col, true, tc::g(main, col, r)));
+                        }
+                    } else {
+                        cells.push((MEMORY_TRACE_OFFSET + 1, true, 0));
+                    }
+                    out.push((name, r, cells));
+                }
+            }
+        }
+        if r + 1 < n_exec {
+            let (d, d1) = (tc::depth(main, r), tc::depth(main, r + 1));
+            if d > 16 && d1 + 1 == d {
+                let name = format!("stack/left-shift-at-depth-{}-as-depth-16", if d == 17 { "17" } else { "18+" });
+                let c = seen.entry(name.clone()).or_insert(0);
+                if *c < per_kind {
+                    *c += 1;
+                    let cells = vec![
+                        (STACK_TRACE_OFFSET + H0_COL_IDX, false, 0u64),
+                        (STACK_TRACE_OFFSET + B0_COL_IDX, true, d),
+                        (STACK_TRACE_OFFSET + B1_COL_IDX, true, tc::b1(main, r)),
+                        (STACK_TRACE_OFFSET + 15, true, 0),
+                        (STACK_TRACE_OFFSET + H0_COL_IDX, true, tc::g(main, STACK_TRACE_OFFSET + H0_COL_IDX, r)),
+                    ];
+                    out.push((name, r, cells));
+                }
+            }
+        }
+    }
+    out
+}
+
 /// `vsim c04learn <traces>`: measures the table on the current tree
 pub fn learn(ntraces: u64) -> i32 {
     let nthreads = 16u64;
@@ -326,7 +387,7 @@ impl Prop for C04 {
         }
     }
     fn rule(&self) -> &'static str {
-        "one run = one honest trace; for up to 4 rows of every row kind present (operation x depth regime; chiplet row kind x cycle position; range-checker row kind) every cell of the kind's cell set (next-row stack positions, b0', b1', h0', clk', fmp', current-row helper registers; chiplet and range cells of both rows) is replaced by every value of a fixed wrong-value menu (v+1, v-1, v+3, 0/1 or bit flip, a seeded random element) and all main transition constraints of that row pair are evaluated. One evaluation = one injected wrong value; it counts as non-trivial when the cell is classified enforced (D in the committed table, or documented-enforced for the operation groups the property names); such an injection must be rejected. Distinct = (row kind, cell, wrong-value kind)."
+        "one run = one honest trace; for up to 4 rows of every row kind present (operation x depth regime; chiplet row kind x cycle position; range-checker row kind) every cell of the kind's cell set (next-row stack positions, b0', b1', h0', clk', fmp', current-row helper registers; chiplet and range cells of both rows) is replaced by every value of a fixed wrong-value menu (v+1, v-1, v+3, 0/1 or bit flip, a seeded random element) and all main transition constraints of that row pair are evaluated. One evaluation = one injected wrong value; it counts as non-trivial when the cell is classified enforced (D in the committed table, or documented-enforced for the operation groups the property names); such an injection must be rejected. In addition composite forgeries rewrite a whole row under a wrong interpretation of the transition (a memory access to another address or context claimed to be a re-access of the previous word; a left shift at depth > 16 claimed to happen at depth 16) and must be rejected by the row pair's constraints. Distinct = (row kind, cell, wrong-value kind)."
     }
     fn generate(&self, rng: &mut Rng, _tier: Tier, _index: u64) -> Value {
         let mut sc = gen_scenario(rng);
@@ -473,6 +534,34 @@ impl Prop for C04 {
             };
             out.violate(class, format!("row {r} ({key}): cell {cell} changed from {v} to {val} (kind {kind}): no main transition constraint of the row pair is violated; the same kind of wrong value passes on {passed} of {tried} rows of this kind"));
         }
+        // composite forgeries (whole-row reinterpretations), judged without any table
+        {
+            let w = main.num_cols();
+            let (mut cur, mut next, mut buf) = (vec![ZERO; w], vec![ZERO; w], vec![ZERO; mon.n_main]);
+            for (name, r, cells) in composite_forgeries(main, n, t.length(), 6, sc["sweep_seed"].as_u64().unwrap_or(1)) {
+                main.read_row_into(r, &mut cur);
+                main.read_row_into(r + 1, &mut next);
+                for (col, in_next, val) in &cells {
+                    if *in_next {
+                        next[*col] = Felt::new(*val);
+                    } else {
+                        cur[*col] = Felt::new(*val);
+                    }
+                }
+                mon.eval_main(r, &cur, &next, &mut buf);
+                enforced_evals += 1;
+                out.count(&format!("fault:composite-forgery|{}", name.split('/').next().unwrap_or("")));
+                let mut h = Fnv::new();
+                h.str("composite").str(&name);
+                subs.insert(h.finish());
+                if buf.iter().any(|x| *x != ZERO) {
+                    out.count(&format!("reach:enforced|composite|{}", name));
+                    obs.str(&name).u64(1);
+                } else {
+                    out.violate(format!("C04/not-rejected/composite/{}", name), format!("row pair {r}: the next row rewritten as {name} ({} cells: {:?}) violates no main transition constraint", cells.len(), cells));
+                }
+            }
+        }
         out.evals = enforced_evals.max(1);
         out.nontrivial = enforced_evals > 0;
         out.sub_digests = subs.into_iter().collect();
@@ -493,6 +582,6 @@ impl Prop for C04 {
         vec!["stored-trace corruption (one cell of a row pair)", "enforced-cell classification: committed measurement table + documented effects", "program generator"]
     }
     fn assumptions(&self) -> Vec<&'static str> {
-        vec!["a D entry of the committed table states that the tree enforced that cell for every tried wrong value when the table was measured; value-dependent cells (p) are not judged", "auxiliary-segment (bus) constraints other than b_range are not part of this AIR version and are not judged", "only single-cell deviations of a single row pair are injected"]
+        vec!["a D entry of the committed table states that the tree enforced that cell for every tried wrong value when the table was measured; value-dependent cells (p) are not judged", "auxiliary-segment (bus) constraints other than b_range are not part of this AIR version and are not judged", "single-cell deviations of a single row pair, plus the listed composite forgeries (memory re-access claimed across an address / context change; left shift at depth > 16 claimed as depth 16); other coordinated multi-cell forgeries are not injected"]
     }
 }
